@@ -193,15 +193,33 @@ static void finish_run(lzma_stream *s, Lim &L, RunOut &O, lzma_ret ret) {
 	if (!L.d->idx && !al.balanced()) violation("C10:leak-after-end", "%s decoder: %zu allocations (%llu bytes) live after lzma_end", kind_names[L.d->kind], al.live.size(), (unsigned long long)al.live_bytes);
 }
 
-static RunOut run_dec(const Dec &d, const uint8_t *in, size_t n, uint64_t limit0, int policy, const std::vector<uint64_t> *ladder, const drv::Schedule &sch, bool probe_lower, size_t out_hint, uint64_t raise_cap = UINT64_MAX) {
+static RunOut run_dec(const Dec &d, const uint8_t *in, size_t n, uint64_t limit0, int policy, const std::vector<uint64_t> *ladder, const drv::Schedule &sch, bool probe_lower, size_t out_hint, uint64_t raise_cap = UINT64_MAX, int set_before_input = 0) {
 	va::Alloc &al = AL();
 	if (!al.balanced()) harness_bug("allocator not balanced at the start of a run");
 	al.reset_counters();
 	RunOut O; lzma_stream s = LZMA_STREAM_INIT; s.allocator = &al.a;
 	if (d.idx) *d.idx = NULL;
-	lzma_ret ir = dec_init(&s, d, limit0);
+	// set_before_input: initialise with another limit (1: none, 2: twice the wanted one) and install the wanted limit with lzma_memlimit_set()
+	// before the first byte is supplied - from then on the decoder must behave exactly as if it had been initialised with it
+	const uint64_t init_limit = set_before_input == 1 ? UINT64_MAX : (set_before_input == 2 ? sat_add(std::max<uint64_t>(limit0, 1), std::max<uint64_t>(limit0, 1)) : limit0);
+	lzma_ret ir = dec_init(&s, d, init_limit);
 	if (ir == LZMA_MEM_ERROR) { lzma_end(&s); O.env = true; O.R.ret = ir; count("environment_mem_error_other"); return O; }
 	if (ir != LZMA_OK) harness_bug("%s decoder init: %s", kind_names[d.kind], drv::retname(ir));
+	if (set_before_input) {
+		const uint64_t use0 = lzma_memusage(&s); const lzma_ret sr = lzma_memlimit_set(&s, limit0);
+		if (std::max<uint64_t>(limit0, 1) >= use0) {
+			if (sr != LZMA_OK) violation("C09:memlimit-set-refused", "%s decoder: lzma_memlimit_set(%llu) before any input returned %s although lzma_memusage() is %llu", kind_names[d.kind], (unsigned long long)limit0, drv::retname(sr), (unsigned long long)use0);
+			count("limit_installed_with_memlimit_set_before_any_input");
+		} else {
+			// below the current usage: must be refused and change nothing; carry on with a decoder initialised with the wanted limit
+			if (sr != LZMA_MEMLIMIT_ERROR) violation("C09:memlimit-set-below-usage", "%s decoder: lzma_memlimit_set(%llu) below lzma_memusage() = %llu returned %s", kind_names[d.kind], (unsigned long long)limit0, (unsigned long long)use0, drv::retname(sr));
+			if (lzma_memlimit_get(&s) != std::max<uint64_t>(init_limit, 1)) violation("C09:memlimit-get", "%s decoder: a refused lzma_memlimit_set() changed the limit to %llu", kind_names[d.kind], (unsigned long long)lzma_memlimit_get(&s));
+			ir = dec_init(&s, d, limit0);
+			if (ir == LZMA_MEM_ERROR) { lzma_end(&s); O.env = true; O.R.ret = ir; count("environment_mem_error_other"); return O; }
+			if (ir != LZMA_OK) harness_bug("%s decoder re-init: %s", kind_names[d.kind], drv::retname(ir));
+			count("memlimit_set_before_input_below_usage_refused");
+		}
+	}
 	Lim L; L.d = &d; L.al = &al; L.limit = std::max<uint64_t>(1, limit0); L.policy = policy; L.ladder = ladder; L.A = allowance(d.kind == K_MT ? d.threads : 1); L.probe_lower = probe_lower; L.raise_cap = raise_cap;
 	L.fresh_usage = lzma_memusage(&s);
 	if (lzma_memlimit_get(&s) != L.limit) violation("C09:memlimit-get", "%s decoder: lzma_memlimit_get() = %llu right after initialisation with limit %llu", kind_names[d.kind], (unsigned long long)lzma_memlimit_get(&s), (unsigned long long)limit0);
